@@ -1,0 +1,116 @@
+//go:build verif
+
+package stage
+
+import (
+	"sort"
+	"time"
+)
+
+// VerifFile is the read-only projection of one cache entry.
+type VerifFile struct {
+	Path    string
+	Name    string
+	Renamed string
+	Prev    string
+	Hash    string
+	State   int
+	Timer   bool
+}
+
+// VerifSnap is a read-only projection of the in-memory state of a Stage for
+// the verification harness.
+type VerifSnap struct {
+	Cache     []VerifFile
+	Wait      map[string][]string // predecessor path -> waiting paths
+	Locks     []string
+	ValidateQ int
+	FinalizeQ int
+	Ready     bool
+}
+
+// VerifSnapshot returns the projection.
+func (s *Stage) VerifSnapshot() VerifSnap {
+	snap := VerifSnap{Wait: map[string][]string{}}
+	s.cacheLock.RLock()
+	for _, f := range s.cache {
+		snap.Cache = append(snap.Cache, VerifFile{
+			Path: f.path, Name: f.name, Renamed: f.renamed, Prev: f.prev,
+			Hash: f.hash, State: f.state, Timer: f.wait != nil,
+		})
+	}
+	s.cacheLock.RUnlock()
+	sort.Slice(snap.Cache, func(i, j int) bool { return snap.Cache[i].Path < snap.Cache[j].Path })
+	s.waitLock.RLock()
+	for p, ff := range s.wait {
+		for _, f := range ff {
+			snap.Wait[p] = append(snap.Wait[p], f.path)
+		}
+		sort.Strings(snap.Wait[p])
+	}
+	s.waitLock.RUnlock()
+	s.pathLock.RLock()
+	for k := range s.pathLocks {
+		snap.Locks = append(snap.Locks, k)
+	}
+	s.pathLock.RUnlock()
+	sort.Strings(snap.Locks)
+	snap.ValidateQ = len(s.validateCh)
+	snap.FinalizeQ = len(s.finalizeCh)
+	snap.Ready = s.Ready()
+	return snap
+}
+
+// VerifFireTimer makes the retry timer of the file waiting at path fire now
+// (the timer is stopped and its function, finalizeQueue, is called).  Reports
+// whether such a timer existed.
+func (s *Stage) VerifFireTimer(path string) bool {
+	f := s.getWaiting(path)
+	if f == nil {
+		return false
+	}
+	s.waitLock.Lock()
+	t := f.wait
+	if t != nil {
+		t.Stop()
+		f.wait = nil
+	}
+	s.waitLock.Unlock()
+	if t == nil {
+		return false
+	}
+	verifHookEnq(f.path)
+	s.finalizeQueue(f)
+	return true
+}
+
+// VerifExpireCache runs cleanCache as if every entry had been logged and
+// loaded more than the cache ages ago.
+func (s *Stage) VerifExpireCache() {
+	s.cacheLock.Lock()
+	old := time.Now().Add(-2 * cacheAgeLogged)
+	for _, f := range s.cache {
+		if !f.logged.IsZero() {
+			f.logged = old
+		}
+		if f.state == stateLogged {
+			f.time = old
+		}
+	}
+	for i := range s.cacheTimes {
+		s.cacheTimes[i] = old
+	}
+	s.cacheLock.Unlock()
+	s.cleanCache()
+}
+
+// VerifStopCleaner stops the periodic cleaning timer (the harness calls
+// CleanNow itself).
+func (s *Stage) VerifStopCleaner() {
+	s.cleanLock.Lock()
+	defer s.cleanLock.Unlock()
+	if s.cleanTimeout != nil {
+		s.cleanTimeout.Stop()
+	}
+	s.cleanInterval = 24 * time.Hour
+}
